@@ -180,6 +180,13 @@ Proof.
   destruct (good_total s G) as [_ [F _]]. rewrite F. cbn [negb]. rewrite (eval_all_ok _ _ C). discriminate.
 Qed.
 
+Lemma tdep_nm : forall s owt drop, good s -> nm (tdep s owt drop).
+Proof.
+  intros s owt drop G. destruct (good_total s G) as [_ [F _]]. unfold tdep.
+  rewrite F. cbn [negb]. destruct (kept drop _); [discriminate|].
+  destruct (forallb _ _); discriminate.
+Qed.
+
 Definition build_nm_ok (p : pt) : Prop :=
   wf p -> atomic p = true -> forall s drop, good s -> covers s (pnames p) ->
     nm (build p s drop) /\ nm (meas_at p s).
@@ -234,6 +241,10 @@ Proof.
       apply (IHp Hwf Hat (SDict l) drop); cbn; auto. eapply eager_covers; eauto.
   - (* Ren *)
     cbn [wf] in Hwf. cbn [build meas_at]. apply IHp; auto.
+  - (* ParT *)
+    apply covers_app in C as [Ci Co]. cbn [wf] in Hwf. destruct (IHp Hwf Hat s drop G Ci) as [Hb Hm].
+    split; [|exact Hm]. cbn [build]. apply bind_nm; auto. intros w _. destruct w; [|discriminate].
+    apply bind_nm; [apply tdep_nm; auto|intros; discriminate].
 Qed.
 
 Lemma remove_id_in : forall x i l, In x l -> x <> i -> In x (remove_id i l).
@@ -307,4 +318,7 @@ Proof.
       * exfalso. eapply assoc_none_notin; eauto.
   - (* Ren *)
     cbn [run]. cbn [pnames] in C. cbn [wf] in Hwf. apply IHp; auto.
+  - (* ParT *)
+    cbn [run]. cbn [pnames] in C. apply covers_app in C as [Ci Co]. cbn [wf] in Hwf.
+    apply bind_nm; [apply tdep_nm; auto|]. intros _ _. apply IHp; auto.
 Qed.
